@@ -103,6 +103,31 @@ def split_eq(t):
     return t[:star], t[star + 1:eq], rhs
 
 
+class _AnySignature(__import__("pyvc.interp", fromlist=["RawLine"]).RawLine):
+    """first line of a pre-seeded evaluation-key file: a signature that compares equal to every signature"""
+    def strip(self, *a):
+        return self
+
+    def split(self, *a):
+        return [self]
+
+    def __eq__(self, o):
+        return True
+
+    def __ne__(self, o):
+        return False
+
+    __hash__ = str.__hash__
+
+
+def _preseed_stale(c):
+    from pyvc.interp import RawLine
+    opt = c.w.import_module("pysnark.qaptools.options")
+    c.w.fs[opt.get_ek_file("main")] = [_AnySignature("<the signature of this run> 1\n")]
+    c.w.fs[opt.get_eqs_file_fn("main")] = [("print", ("1 1 * 1 1 = 1 99 .",), " ", "\n")]
+    return None
+
+
 def _lc_map(toks, p):
     """tokens `c1 v1 c2 v2 ...` or Sig objects -> {wire name: concrete coefficient mod p}, None when not concrete"""
     out = {}
@@ -345,6 +370,18 @@ def prog():
     backend.prove()
     return (o1, o2, o3)
 """, {"a": lambda c: SymInt(z3.Int("s_a")), "b": lambda c: SymInt(z3.Int("s_b"))}),
+        # the key directory still holds, from earlier runs, an evaluation key carrying this function's signature (whatever
+        # it is: the pre-seeded key file answers "equal" to every signature) and a per-function equation file with OTHER
+        # content (an aborted run rewrote it): the proving step writes the equation files of THIS run, it does not trust
+        # what lies there because a key's signature matches
+        "prove_over_stale_files": ("""
+def prog():
+    x = PrivVal(a)
+    y = x * x
+    out = y.val()
+    backend.prove()
+    return out
+""", {"a": lambda c: SymInt(z3.Int("s_a")), "_stale": lambda c: _preseed_stale(c)}),
     }
 
     def extra(self, c, r, wires, io, eqs, directives):
